@@ -115,6 +115,12 @@ def findSubT (S : Spec) (name vmask : Nat) : Nat → Nat → Option (ETy × List
 def findSub (S : Spec) (t name vmask : Nat) : Option (ETy × List Nat) :=
   findSubT S name vmask (S.depth + 1) t
 
+/-- `find_sub_element(name, version).or_else(|| find_sub_element(name, u32::MAX))` -/
+def findSubOr (S : Spec) (t name vmask : Nat) : Option (ETy × List Nat) :=
+  match S.findSub t name vmask with
+  | some x => some x
+  | none => S.findSub t name 0xFFFFFFFF
+
 /-- `get_sub_element_spec(indices)`: the entry and its version mask; `none` where Rust returns
 `None` (empty path, or an element where a group is required).  Out-of-range indices are a Rust
 panic; they are excluded by `IdxValid` in the theorems that use this function. -/
